@@ -22,8 +22,10 @@ inline bool has_overhead(int k) { return k >= K_HASHHF; }
 static const int N_CLASSES = 6;  // quick; class 6 exists in thorough
 // class 7 ("scale" stages): more than 2^17 strings, mostly more than 2^16 buckets and a text of 1-4 MB, so that 16-bit
 // quantities overflow and every buffer is reallocated with the default MEMALLOC
-static const int n_lo[8] = {1, 2, 3, 9, 65, 601, 3001, 140000};
-static const int n_hi[8] = {1, 2, 8, 64, 600, 3000, 12000, 280000};
+// class 8 ("hugelcp" stages): 2-6 strings of 16-50 KB sharing a prefix whose length sits around the 2^14 / 2^15
+// boundaries of the variable-byte code (plus a few short strings)
+static const int n_lo[9] = {1, 2, 3, 9, 65, 601, 3001, 140000, 2};
+static const int n_hi[9] = {1, 2, 8, 64, 600, 3000, 12000, 280000, 6};
 
 struct Params {
   int kind = 0;
@@ -163,6 +165,7 @@ inline std::vector<std::string> gen_strings(Src &s, int nclass, bool thorough, G
   if (prefer_textlike && s.byte() % 4 != 3) family = 9;
   if (family == 7 && nclass < 5) family = 0;   // the big skewed text is a large-class shape
   if (nclass == 7) { static const int big[] = {9, 1, 0, 9}; family = big[s.byte() % 4]; }   // text-like, numerals, incremental
+  if (nclass == 8) family = 10;
   if (const char *ff = getenv("VERIF_FAMILY")) family = atoi(ff);  // development aid
   int lo = n_lo[nclass], hi = n_hi[nclass];
   size_t n = lo + s.below(hi - lo + 1);
@@ -300,6 +303,23 @@ inline std::vector<std::string> gen_strings(Src &s, int nclass, bool thorough, G
         }
         S.push_back(t);
       }
+      break;
+    }
+    case 10: {  // shared prefixes around 2^14 and 2^15 bytes
+      static const size_t base[] = {16384, 16383, 16385, 16500, 16511, 16512, 32768, 32767, 32800, 20000, 49152, 16384 + 127};
+      size_t pl = base[ps.below(12)];
+      if (ps.below(4) == 0) pl += ps.below(300);
+      XorShift x(seed ^ 0x1c9);
+      std::string pre;
+      for (size_t q = 0; q < pl; q++) pre += (char)A[x.below(asize)];
+      for (size_t k = 0; k < n; k++) {
+        std::string t = pre;
+        size_t sl = 1 + ps.below(6);
+        for (size_t q = 0; q < sl; q++) t += sym();
+        S.push_back(t);
+      }
+      size_t shorts = ps.below(8);
+      for (size_t k = 0; k < shorts; k++) { std::string t; size_t L = 1 + ps.below(9); for (size_t q = 0; q < L; q++) t += sym(); S.push_back(t); }
       break;
     }
     case 8: {  // one long string among short ones
